@@ -25,7 +25,7 @@ def floors(ctx):
          "graphs_with_bridge_out_of_universe": 1, "graphs_with_former_members": 20, "graphs_with_former_links": 20, "ff_result_removed_something": 20,
          "cases_partial_reach": 50, "cases_expect_notimplemented": 5,
          "cases_retraversed_after_in_place_edit": 100, "interleaved_generator_pairs": 1000 if "C06" in WANT else 0}
-    for d in oracles.DIRS:
+    for d in oracles.DIR_NAMES:
         for u in oracles.UNKS:
             for un in ("uni", "nouni"):
                 f[f"cell_{d}_{u}_{un}"] = 15
